@@ -623,7 +623,7 @@ func TestCheck(t *testing.T) {
 		}
 	}
 	// (1b) structural tampering
-	reps := r.Pick(1, 8)
+	reps := r.Pick(2, 8)
 	for rep := 0; rep < reps; rep++ {
 		cs := structural(mon.NewRand(r.Sub("struct", rep)))
 		for blk := 0; blk*24 < len(cs); blk++ {
@@ -657,7 +657,7 @@ func TestCheck(t *testing.T) {
 		}
 	}
 	// (2) blind tampering
-	nb := r.Pick(64, 2000)
+	nb := r.Pick(256, 2000)
 	for i := 0; i < nb; i += 8 {
 		i := i
 		r.Bubble(fmt.Sprintf("blind/%05d", i), func(c *mon.Case) {
